@@ -147,6 +147,11 @@ def gen_arg(rng, allow_escape=True):
         inner = 'say "%s" now' % rng.choice(PLAIN)
     else:
         inner = rng.choice(PLAIN)
+    r2 = rng.random()
+    if r2 < 0.06:
+        inner = inner + rng.choice([",", ", ", " "])         # a value that ends with a comma / a blank
+    elif r2 < 0.09:
+        inner = rng.choice(["", "\t", " ", "  "])              # empty, or nothing but white space
     return {"v": inner, "q": True}
 
 
@@ -350,6 +355,10 @@ def table_features(items):
                 f.add("first_and_last_quoted")
             if len(c["args"]) == 1 and c["args"][0]["q"]:
                 f.add("whole_list_quoted")
+            if any(a["q"] and a["v"][-1:] in (",", " ") and len(a["v"]) > 1 for a in c["args"]):
+                f.add("quoted_ends_comma_or_blank")
+            if any(a["q"] and a["v"].strip(" \t") == "" for a in c["args"]):
+                f.add("quoted_empty_or_blank")
     return f
 
 
@@ -600,7 +609,7 @@ def _variant():
     if not _VARIANT:
         return None
     have = set() if _VARIANT == "pinned" else set(_VARIANT.split(","))
-    return {k: (k in have) for k in ("d3", "d4", "d20", "d31")}
+    return {k: (k in have) for k in ("d3", "d4", "d20", "d31", "d32", "d33")}
 
 
 def model_requests(case):
